@@ -56,7 +56,7 @@ def txt_of(pairs):
 def svc_args(idx, sn, variant):
     """-> (name, type, [packed addrs], port, txt) for id index idx.  variant: v | noid | linklocal | badint"""
     idtxt = IDS[idx].upper().encode() if sn % 2 == 0 else IDS[idx].encode()
-    pairs = [(b"c#", b"%d" % (sn + 1)), (b"id" if sn % 3 else b"ID", idtxt), (b"md", b"unit"), (b"s#", b"%d" % sn),
+    pairs = [(b"c#", b"%d" % (sn + 1)), (b"id" if (sn % 3 or variant == "linklocal") else b"ID", idtxt), (b"md", b"unit"), (b"s#", b"%d" % sn),
              (b"ci", b"5"), (b"sf", b"0")]
     addrs = [socket.inet_aton("169.254.7.7"), socket.inet_aton("10.0.0.%d" % (idx + 1)),
              socket.inet_pton(socket.AF_INET6, "fe80::1")]
@@ -322,11 +322,18 @@ class Rig:
             pass
 
 
+def _busy(loop):
+    if loop._ready:
+        return True
+    now = loop.time()
+    return any((not h._cancelled) and h._when <= now for h in loop._scheduled[:4])
+
+
 async def settle(loop):
-    """let the loop run until nothing is ready any more (the clock does not move)"""
+    """let the loop run until nothing is ready or due any more (the clock does not move)"""
     await asyncio.sleep(0)
     n = 0
-    while loop._ready and n < 200:
+    while _busy(loop) and n < 200:
         await asyncio.sleep(0)
         n += 1
 
@@ -429,63 +436,45 @@ def run_impl(kind, scheds, objs=None):
 
 
 # ================================================================ model side
-def model_tokens(kind, events):
-    """harness events -> driver tokens, and the map model step -> harness event index"""
-    toks, owner = [], []
-    for idx, ev in enumerate(events):
+_tok_memo = {}
+
+
+def model_group(kind, ev):
+    """one harness event -> one driver group (the model events it stands for, joined by '+')"""
+    key = (kind == "agg", ev)
+    g = _tok_memo.get(key)
+    if g is None:
         op = ev[0]
         if op == "F":
-            new = [f"F.{ev[1]}.{hx(ev[2].encode())}.{ev[3]}", "T.0"]
+            g = f"F.{ev[1]}.{hx(ev[2].encode())}.{ev[3]}+T.0"
         elif op == "A":
             pre = "A" if kind != "agg" else ("AM" if ev[1][0] == "m" else "AB")
-            new = [f"{pre}.{ev[1]}", "T.0"]
+            g = f"{pre}.{ev[1]}+T.0"
         elif op == "Ab":
-            new = ["T.2048", f"A.{ev[1]}", "T.0"]
+            g = f"T.2048+A.{ev[1]}+T.0"
         elif op == "C":
-            new = [f"C.{ev[1]}", "T.0"]
+            g = f"C.{ev[1]}+T.0"
         elif op == "Cq":
-            new = [f"C.{ev[1]}"]
+            g = f"C.{ev[1]}"
         elif op == "T":
-            new = [f"T.{ev[1]}"]
+            g = f"T.{ev[1]}"
         else:
-            new = [f"L.{hx(ev[1].encode())}.{1 if ev[2] else 0}"]
-        toks += new
-        owner += [idx] * len(new)
-    return toks, owner
-
-
-def model_canon(answer, owner):
-    """driver answer -> canonical result string (same shape as the implementation's)"""
-    if " | " not in answer:
-        return "model-error:" + answer + "||"
-    steps, discs = answer.split(" | ", 1)
-    res, raised = {}, []
-    for i, cell in enumerate(steps.split(" ")):
-        if cell == "-":
-            continue
-        for o in cell.split(","):
-            if o == "raised":
-                raised.append("%d" % owner[i])
-                continue
-            k, rest = o.split(":", 1)
-            k = int(k)
-            res[k] = rest if k not in res else "twice(" + res[k] + "," + rest + ")"
-    return canon(res, raised, discs)
+            g = f"L.{hx(ev[1].encode())}.{1 if ev[2] else 0}"
+        _tok_memo[key] = g
+    return g
 
 
 def run_model(drv, kind, scheds, cfgname=None, defs=None):
+    """-> canonical results (the driver answers in the canonical shape)"""
     cfgname = cfgname or kind
     defs = cat_defs() if defs is None else defs
     out = []
+    head = f"sched {cfgname} "
     for i in range(0, len(scheds), 20000):
-        part = scheds[i:i + 20000]
-        lines, owners = list(defs), []
-        for evs in part:
-            toks, owner = model_tokens(kind, evs)
-            lines.append(f"sched {cfgname} " + " ".join(toks))
-            owners.append(owner)
-        ans = drv._run(lines)[len(defs):]
-        out += [model_canon(a, o) for a, o in zip(ans, owners)]
+        lines = list(defs)
+        for evs in scheds[i:i + 20000]:
+            lines.append(head + " ".join([model_group(kind, ev) for ev in evs]))
+        out += drv._run(lines)[len(defs):]
     return out
 
 
@@ -801,6 +790,10 @@ def extra_schedules():
                 out.append((kind, [("F", 1, w, 8), ("T", 5), ("A", a), ("T", FLUSH)]))
                 out.append((kind, [("A", a), ("F", 1, w, 8), ("T", FLUSH)]))
                 out.append((kind, [("F", 1, w, 8), ("F", 2, Y, 16), ("A", a), ("T", FLUSH)]))
+    for kind, a in (("mdns", "m0v1"), ("ble", "b0v1"), ("agg", "m0v1"), ("agg", "b0v1")):   # zero timeout; long timeouts
+        out.append((kind, [("F", 1, X, 0), ("A", a), ("F", 2, X, 0), ("T", FLUSH)]))
+        out.append((kind, [("F", 1, X, 0), ("F", 2, X, 1), ("T", 1), ("A", a), ("T", FLUSH)]))
+        out.append((kind, [("F", 1, X, 40960), ("F", 2, Y, 122880), ("T", 40959), ("A", a), ("T", 81920), ("T", 2)]))
     for sym in ("m0v1", "m0v2", "m1v3", "m0i0", "m0i1", "m0i2"):
         out.append(("mdns", [("F", 1, X, 4096), ("Ab", sym), ("T", 8192)]))
         out.append(("mdns", [("Ab", sym), ("F", 1, X.upper(), 8), ("T", FLUSH)]))
@@ -1245,7 +1238,14 @@ def run_callback_stream(ctx, cov, viols):
                     key, what, found = (f"callback:{kind}:callback-raised:{exc}:pairing-{ptxt}",
                                         f"{kind}: callback raised {exc} on an advertisement (pairing situation: {ptxt})", True)
                 elif strip_exc(i) != m and all(c < 128 for c in (cat[sym].get("args") or (0, 0, 0, 0, b""))[4]):
-                    key, what, found = (f"callback:{kind}:model-mismatch", f"{kind}: callback result {i} != model {m}", False)
+                    # oracle that needs no model: the controller itself lists the device (so it accepted the
+                    # advertisement as valid) yet the caller that was waiting for that id was not completed with it
+                    accepted = hx(X.encode()) in i.split("|")[2]
+                    if accepted and not i.startswith("1=found"):
+                        key, what, found = (f"callback:{kind}:lost-wakeup",
+                                            f"{kind}: advertisement accepted (device listed) but the waiting caller got {i.split('|')[0]}", True)
+                    else:
+                        key, what, found = (f"callback:{kind}:model-mismatch", f"{kind}: callback result {i} != model {m}", False)
                 if key:
                     cov.extra["disagreements_checked"] = cov.extra.get("disagreements_checked", 0) + 1
                     viols.append(violation(key, what, found, stream="callback", kind=kind, pairing=ptxt, events=[list(e) for e in evs],
@@ -1275,6 +1275,15 @@ def run(ctx):
         timing[k] = round(timing.get(k, 0), 1)
     cov.extra.setdefault("disagreements_checked", 0)
     cov.extra["timing_s"] = timing
+    # one violation per key (the first = smallest found), with the number of cases behind it
+    first, count = {}, {}
+    for v in viols:
+        count[v["key"]] = count.get(v["key"], 0) + 1
+        first.setdefault(v["key"], v)
+    viols = list(first.values())
+    for v in viols:
+        if count[v["key"]] > 1:
+            v["payload"]["same_key_cases"] = count[v["key"]]
     cov.extra["exhaustive"] = True
     cov.extra["exhaustive_part"] = (
         "sched: every schedule of exactly the tier's depth (then a flush) over {caller k starts with timeout 8|16 ticks on id 1|2, "
